@@ -67,6 +67,7 @@ def build_sites(objs, rng):
         return apply
 
     definers = {o["name"]: o for o in objs if o["kind"] in ("enum", "flag")}
+    names_with_tests = {t_["name"] for t_ in objs if t_["kind"] == "test"}
     # replacement names for the unknown-type rule: a name that exists nowhere, a name that exists only in the OTHER protocol family
     # (login <-> world), and a name that exists only for world versions the user does not have — the diagnostic must be the rule's in every case
     typed = [x for x in objs if x["kind"] in ("enum", "flag", "struct")]
@@ -111,13 +112,56 @@ def build_sites(objs, rng):
                     if len(m["conds"]) == 1:
                       sites["ENUM_HAS_BITWISE_AND"].append(Site("ENUM_HAS_BITWISE_AND", o["file"], line_edit(o["file"], m["line"], lambda s: s.replace("==", "&", 1)), where))
                     if len(m["conds"]) > 1:
-                        sites["NON_MATCHING_IF_VARIABLES"].append(Site("NON_MATCHING_IF_VARIABLES", o["file"], line_edit(o["file"], m["line"], lambda s, var=var: re.sub(r"\|\|\s*" + var + r"\b", "|| other_variable_xyz", s, count=1)), where))
+                        def other_var(root, o=o, m=m, var=var):
+                            # the `||` may stand on a continuation line of the condition
+                            p = os.path.join(root, os.path.relpath(o["file"], REPO))
+                            lines = open(p).read().split("\n")
+                            for i in range(m["line"] - 1, min(len(lines), m["line"] + 6)):
+                                new = re.sub(r"\|\|\s*" + var + r"\b", "|| other_variable_xyz", lines[i], count=1)
+                                if new != lines[i]:
+                                    lines[i] = new
+                                    open(p, "w").write("\n".join(lines))
+                                    return True
+                            return False
+                        sites["NON_MATCHING_IF_VARIABLES"].append(Site("NON_MATCHING_IF_VARIABLES", o["file"], other_var, where))
                 if op == "&":
                     sites["MISSING_ENUMERATOR"].append(Site("MISSING_ENUMERATOR", o["file"], line_edit(o["file"], m["line"], lambda s, val=val: re.sub(r"\b" + re.escape(val) + r"\b", "NO_SUCH_ENUMERATOR_XYZ", s, count=1)), where))
                     if len(m["conds"]) == 1:
                       sites["FLAG_HAS_EQUALS"].append(Site("FLAG_HAS_EQUALS", o["file"], line_edit(o["file"], m["line"], lambda s: s.replace("&", "==", 1)), where))
         # object-level rules
         where = f"{o['kind']} {o['name']} ({tagk})"
+        # misplaced self.size: a `= self.size` field may only follow members of constant size — not a string / packed guid / variable array,
+        # not an if statement, not an optional
+        VAR_TYPES = ("CString", "SizedCString", "String", "PackedGuid")
+        seen_cond = False
+        for m in o["members"]:
+            if m["k"] in ("if", "optional"):
+                seen_cond = True
+                continue
+            if m["k"] != "field" or any(mm.get("value") == "self.size" for mm in o["members"] if mm["k"] == "field"):
+                continue
+            t_ = m["ty"]
+            variable = (t_["t"] == "name" and t_["name"] in VAR_TYPES) or (t_["t"] == "array" and t_["size"][0] != "fixed")
+            if variable or seen_cond:
+                kind_ = "after-variable-member" if variable else "after-conditional"
+                sites["INVALID_SELF_SIZE"].append(Site("INVALID_SELF_SIZE", o["file"], line_edit(o["file"], m["line"], lambda s: s + " u16 zz_verif_size = self.size;" if s.strip().endswith(";") else s), where + " " + kind_))
+        # message name / opcode against the opcode index (world messages): a known opcode under another name, a name the index does not have
+        if o["kind"] in ("cmsg", "smsg", "msg") and o.get("opcode_int") is not None and o["name"] not in names_with_tests:
+            nm_ = o["name"]
+            sites["OPCODE_HAS_INCORRECT_NAME"].append(Site("OPCODE_HAS_INCORRECT_NAME", o["file"], line_edit(o["file"], o["line"], lambda s, nm_=nm_: re.sub(r"\b" + nm_ + r"\b", nm_ + "_ZZVERIF", s, count=1)), where))
+
+            def not_in_index(root, o=o, nm_=nm_):
+                p = os.path.join(root, os.path.relpath(o["file"], REPO))
+                lines = open(p).read().split("\n")
+                ln = lines[o["line"] - 1]
+                new = re.sub(r"\b" + nm_ + r"\b", nm_ + "_ZZVERIF", ln, count=1)
+                new = re.sub(r"=\s*0x[0-9A-Fa-f]+", "= 0x0FE7", new, count=1)
+                if new == ln:
+                    return False
+                lines[o["line"] - 1] = new
+                open(p, "w").write("\n".join(lines))
+                return True
+            sites["MESSAGE_NOT_IN_INDEX"].append(Site("MESSAGE_NOT_IN_INDEX", o["file"], not_in_index, where))
         if o["kind"] == "struct":
             first = o["members"][0] if o["members"] else None
             if first is not None and first["k"] == "field":
